@@ -467,6 +467,12 @@ fn parse_rp_command(command: &mut std::str::SplitN<&str>) -> Result<Request, Str
         return Err(format!("Invalid replication request str"));
     }
 
+    // A wrapper never wraps another wrapper: the handler runs the wrapped command through
+    // process_request again, so `rp 1 rp 1 rp 1 ...` recursed once per level until the stack ran out
+    if request_str.splitn(2, " ").next() == Some("rp") {
+        return Err(format!("Invalid replication request str"));
+    }
+
     Ok(Request::ReplicateRequest {
         opp_id,
         request_str,
